@@ -1,12 +1,14 @@
 (** * The default formatter's message does not depend on the order in which the parameters are met.
 
-    conf.NewDefaultFormatter ranges over the issue's Params (a Go map: a random order per call) and
-    applies strings.ReplaceAll once per parameter.  Sequential replacement is order dependent in
-    general (a value may contain another parameter's placeholder).  It is proved here to coincide
-    with a single simultaneous substitution — which depends on the parameters only through lookup —
-    for templates that are a sequence of brace-free text and {{name}} placeholders and parameter
-    keys and values without braces; every shipped template is such a sequence (finite check over the
-    tables regenerated from the code). *)
+    conf.NewDefaultFormatter ranges over the issue's Params (a Go map: a random order per call).
+    As it was, it applied strings.ReplaceAll once per parameter: sequential replacement is order
+    dependent (a value may spell another parameter's placeholder) — proved below to coincide with one
+    simultaneous substitution only for values without braces, and refuted without that hypothesis;
+    the witness replayed on the implementation gave two different messages for the same call.
+    Repaired, it makes one pass (strings.NewReplacer): for templates that are a sequence of
+    brace-free text and {{name}} placeholders and parameter keys without braces this is the
+    simultaneous substitution whatever the values are, hence independent of the order.  Every shipped
+    template is such a sequence (finite check over the tables regenerated from the code). *)
 From Coq Require Import String List Bool Ascii Arith Lia Permutation.
 From Zog Require Import Model.Val Model.Preds Model.Fmt Gen.Tables.
 Import ListNotations.
@@ -55,7 +57,6 @@ Proof.
 Qed.
 
 Inductive token := TText (s : string) | TPh (name : string).
-Definition ph (name : string) : string := "{{" ++ name ++ "}}".
 Fixpoint render (ts : list token) : string :=
   match ts with
   | [] => ""
@@ -251,19 +252,156 @@ Proof.
   injection H as ->. apply find_some in F2. destruct F2 as [F2in _]. apply in_map_iff. exists (c, tpl). split; [reflexivity | exact F2in].
 Qed.
 
-(** The message the default formatter builds from a shipped language map does not depend on the
-    order in which it meets the issue's parameters (for parameter keys and rendered values without
-    braces, no key twice — a Go map has none). *)
+(** ** the repaired formatter: one pass *)
+Lemma multi_aux_skip pairs : forall p r, multi_aux pairs (p ++ r) (String.length p) = multi_aux pairs r 0.
+Proof. induction p as [|a p IH]; intros r; cbn; [destruct r; reflexivity | apply IH]. Qed.
+
+Lemma multi_match pairs a old r p : find (fun q => has_prefix (fst q) (String a old ++ r)) pairs = Some p -> fst p = String a old ->
+  multi_replace pairs (String a old ++ r) = snd p ++ multi_replace pairs r.
+Proof.
+  intros F E. unfold multi_replace. cbn [append multi_aux]. change (String a (old ++ r)) with (String a old ++ r).
+  rewrite F, E. cbn [String.length Nat.sub]. rewrite Nat.sub_0_r. now rewrite multi_aux_skip.
+Qed.
+Lemma multi_step pairs c r : find (fun q => has_prefix (fst q) (String c r)) pairs = None ->
+  multi_replace pairs (String c r) = String c (multi_replace pairs r).
+Proof. intros F. unfold multi_replace. cbn [multi_aux]. now rewrite F. Qed.
+
+Definition keys_ok (ps : list (string * string)) : bool := forallb (fun kv => no_brace (fst kv)) ps.
+
+(** no placeholder pattern starts with anything but an opening brace, nor with a single one *)
+Lemma find_none_not_brace ps c r : Ascii.eqb "{"%char c = false ->
+  find (fun q => has_prefix (fst q) (String c r)) (ph_pairs ps) = None.
+Proof.
+  intros H. induction ps as [|[k v] ps IH]; [reflexivity|]. cbn [ph_pairs map find fst]. unfold ph at 1.
+  cbn [append has_prefix]. rewrite H. cbn [andb]. exact IH.
+Qed.
+Lemma find_none_single_brace ps c r : Ascii.eqb "{"%char c = false ->
+  find (fun q => has_prefix (fst q) (String "{" (String c r))) (ph_pairs ps) = None.
+Proof.
+  intros H. induction ps as [|[k v] ps IH]; [reflexivity|]. cbn [ph_pairs map find fst]. unfold ph at 1.
+  cbn [append has_prefix]. rewrite Ascii.eqb_refl, H. cbn [andb]. exact IH.
+Qed.
+
+(** at a placeholder {{n}}: the first pair whose key is n, if there is one *)
+Lemma find_at_placeholder : forall ps n rest, keys_ok ps = true -> no_brace n = true ->
+  find (fun q => has_prefix (fst q) (ph n ++ rest)) (ph_pairs ps) =
+  match alookup n ps with Some v => Some (ph n, v) | None => None end.
+Proof.
+  induction ps as [|[k v] ps IH]; intros n rest Hk Hn; [reflexivity|].
+  cbn in Hk. apply andb_prop in Hk. destruct Hk as [Hk1 Hk]. cbn [ph_pairs map find fst snd].
+  unfold alookup. cbn [find fst]. destruct (String.eqb_spec k n) as [->|Hne].
+  - rewrite has_prefix_app. reflexivity.
+  - replace (has_prefix (ph k) (ph n ++ rest)) with false.
+    + fold (ph_pairs ps). rewrite IH by assumption. unfold alookup. reflexivity.
+    + symmetry. unfold ph. rewrite !append_assoc. cbn [append has_prefix]. rewrite !Ascii.eqb_refl. cbn [andb].
+      apply key_mismatch; try assumption. congruence.
+Qed.
+
+Lemma multi_on_text ps : forall s rest, no_brace s = true ->
+  multi_replace (ph_pairs ps) (s ++ rest) = s ++ multi_replace (ph_pairs ps) rest.
+Proof.
+  induction s as [|c s IH]; intros rest H; [reflexivity|]. cbn in H. apply andb_prop in H. destruct H as [Hc Hs].
+  cbn [append]. apply not_brace in Hc. destruct Hc as (Hc & _). rewrite multi_step by now apply find_none_not_brace.
+  now rewrite IH.
+Qed.
+
+Lemma ph_cons n rest : ph n ++ rest = String "{" (String "{" (n ++ "}}" ++ rest)).
+Proof. unfold ph. rewrite !append_assoc. reflexivity. Qed.
+
+Lemma multi_ph_kept ps n rest : keys_ok ps = true -> no_brace n = true -> alookup n ps = None ->
+  multi_replace (ph_pairs ps) (ph n ++ rest) = ph n ++ multi_replace (ph_pairs ps) rest.
+Proof.
+  intros Hk Hn Hnone. pose proof (find_at_placeholder ps n rest Hk Hn) as F. rewrite Hnone in F.
+  rewrite (ph_cons n rest) in F. rewrite !ph_cons.
+  rewrite multi_step by exact F. f_equal.
+  destruct (first_of_name_is_not_brace n rest Hn) as (c & r & E & Hc).
+  rewrite E, multi_step by now apply find_none_single_brace. f_equal. rewrite <- E.
+  rewrite (multi_on_text ps n ("}}" ++ rest) Hn).
+  assert (T : multi_replace (ph_pairs ps) ("}}" ++ rest) = "}}" ++ multi_replace (ph_pairs ps) rest).
+  { change ("}}" ++ rest) with (String "}" (String "}" rest)).
+    rewrite multi_step by now apply find_none_not_brace. rewrite multi_step by now apply find_none_not_brace. reflexivity. }
+  now rewrite T.
+Qed.
+
+Lemma multi_ph_replaced ps n v rest : keys_ok ps = true -> no_brace n = true -> alookup n ps = Some v ->
+  multi_replace (ph_pairs ps) (ph n ++ rest) = v ++ multi_replace (ph_pairs ps) rest.
+Proof.
+  intros Hk Hn Hs. pose proof (find_at_placeholder ps n rest Hk Hn) as F. rewrite Hs in F.
+  unfold ph in F |- *. cbn [append] in F |- *.
+  apply (multi_match (ph_pairs ps) "{"%char ("{" ++ n ++ "}}") rest ("{{" ++ n ++ "}}", v) F eq_refl).
+Qed.
+
+(** one pass = the simultaneous substitution, whatever the values are *)
+Theorem one_pass_is_simultaneous ps : keys_ok ps = true -> forall ts, forallb tok_ok ts = true ->
+  multi_replace (ph_pairs ps) (render ts) = render (map (subst_all ps) ts).
+Proof.
+  intros Hk. induction ts as [|t ts IH]; intros H; [reflexivity|]. cbn in H. apply andb_prop in H. destruct H as [Ht Hts].
+  destruct t as [s|n]; cbn [render map subst_all].
+  - rewrite multi_on_text by exact Ht. now rewrite IH.
+  - destruct (alookup n ps) as [v|] eqn:E; cbn [render].
+    + rewrite (multi_ph_replaced ps n v) by assumption. now rewrite IH.
+    + rewrite multi_ph_kept by assumption. now rewrite IH.
+Qed.
+
+Lemma keys_ok_perm ps ps' : Permutation ps ps' -> keys_ok ps = true -> keys_ok ps' = true.
+Proof.
+  intros P H. unfold keys_ok in *. rewrite forallb_forall in *. intros x Hx. apply H.
+  eapply Permutation_in; [apply Permutation_sym; exact P | exact Hx].
+Qed.
+Lemma keys_ok_app a b : keys_ok (a ++ b) = keys_ok a && keys_ok b.
+Proof. apply forallb_app. Qed.
+
+Lemma alookup_app {A} k (a b : list (string * A)) : alookup k (a ++ b) = match alookup k a with Some v => Some v | None => alookup k b end.
+Proof.
+  unfold alookup. induction a as [|[k1 v1] a IH]; cbn [app find fst]; [reflexivity|].
+  destruct (String.eqb k1 k); [reflexivity | exact IH].
+Qed.
+
+(** The message the (repaired) default formatter builds from a shipped language map does not depend
+    on the order in which it meets the issue's parameters: for every parameter list without a
+    repeated key whose keys contain no braces — the values are arbitrary. *)
 Theorem default_format_order_independent lang m dtype code ps ps' value :
-  In (lang, m) langs -> Permutation ps ps' -> NoDup (map fst ps) -> params_ok ps = true ->
+  In (lang, m) langs -> Permutation ps ps' -> NoDup (map fst ps) -> keys_ok ps = true ->
   default_format m dtype code ps value = default_format m dtype code ps' value.
 Proof.
   intros Hm P ND Hp. unfold default_format. destruct (lookup2 m dtype code) as [tpl|] eqn:E; [|reflexivity].
   pose proof (lookup2_in_all_templates _ _ _ _ _ Hm E) as Hin.
   pose proof shipped_templates_are_token_sequences as Hall. rewrite forallb_forall in Hall.
   specialize (Hall _ Hin). unfold template_ok in Hall. apply andb_prop in Hall. destruct Hall as [Hr Ht].
-  apply String.eqb_eq in Hr. f_equal.
-  change (seq_format ps tpl = seq_format ps' tpl). rewrite <- Hr. now apply seq_format_order_independent.
+  apply String.eqb_eq in Hr. rewrite <- Hr.
+  assert (K : forall q, keys_ok q = true -> keys_ok (q ++ [("value", value)]) = true).
+  { intros q Hq. rewrite keys_ok_app, Hq. reflexivity. }
+  rewrite !one_pass_is_simultaneous; try assumption; try (apply K; try assumption; now apply (keys_ok_perm ps)).
+  f_equal. apply map_ext. intros [s|n]; cbn [subst_all]; [reflexivity|].
+  rewrite !alookup_app. now rewrite (alookup_perm_nodup n ps ps' P ND).
+Qed.
+
+(** what the repair changed: nothing, for parameter values without braces *)
+Theorem repair_keeps_brace_free_messages lang m dtype code ps value :
+  In (lang, m) langs -> params_ok ps = true ->
+  default_format m dtype code ps value = default_format_legacy m dtype code ps value.
+Proof.
+  intros Hm Hp. unfold default_format, default_format_legacy. destruct (lookup2 m dtype code) as [tpl|] eqn:E; [|reflexivity].
+  pose proof (lookup2_in_all_templates _ _ _ _ _ Hm E) as Hin.
+  pose proof shipped_templates_are_token_sequences as Hall. rewrite forallb_forall in Hall.
+  specialize (Hall _ Hin). unfold template_ok in Hall. apply andb_prop in Hall. destruct Hall as [Hr Ht].
+  apply String.eqb_eq in Hr. rewrite <- Hr.
+  assert (Hk : keys_ok ps = true).
+  { unfold params_ok in Hp. unfold keys_ok. rewrite forallb_forall in *. intros x Hx. specialize (Hp x Hx). now apply andb_prop in Hp. }
+  rewrite one_pass_is_simultaneous; [| rewrite keys_ok_app, Hk; reflexivity | exact Ht].
+  change (fold_left (fun acc kv => replace_all acc ("{{" ++ fst kv ++ "}}") (snd kv)) ps (render (tokenize tpl)))
+    with (seq_format ps (render (tokenize tpl))).
+  rewrite sequential_is_simultaneous by assumption.
+  change "{{value}}" with (ph "value"). rewrite replace_is_subst1; [| reflexivity |].
+  - rewrite map_map. f_equal. apply map_ext. intros [s|n]; cbn [subst_all subst1]; [reflexivity|].
+    rewrite alookup_app. destruct (alookup n ps) as [v|]; cbn [subst1]; [reflexivity|].
+    unfold alookup. cbn [find fst]. rewrite String.eqb_sym. destruct (String.eqb n "value"); reflexivity.
+  - clear - Hp Ht. induction (tokenize tpl) as [|t ts IH]; [reflexivity|]. cbn in Ht. apply andb_prop in Ht. destruct Ht as [H1 H2].
+    cbn [map forallb]. rewrite (IH H2), andb_true_r. destruct t as [s|n]; cbn [subst_all tok_ok]; [exact H1|].
+    destruct (alookup n ps) as [v|] eqn:E; cbn [tok_ok]; [|exact H1].
+    unfold alookup in E. destruct (find (fun kv => String.eqb (fst kv) n) ps) as [[k v']|] eqn:F; [|discriminate].
+    injection E as ->. apply find_some in F. destruct F as [Fin _]. unfold params_ok in Hp. rewrite forallb_forall in Hp.
+    specialize (Hp _ Fin). cbn in Hp. now apply andb_prop in Hp.
 Qed.
 
 (** without the hypotheses sequential replacement does depend on the order (why they are needed):
@@ -272,6 +410,12 @@ Example sequential_replacement_is_order_dependent :
   seq_format [("a", "{{b}}"); ("b", "x")] "{{a}}" = "x" /\ seq_format [("b", "x"); ("a", "{{b}}")] "{{a}}" = "{{b}}".
 Proof. split; reflexivity. Qed.
 
-Example order_independent_example :
-  default_format lang_en "string" "min" [("min", "3"); ("hint", "h")] "v" = default_format lang_en "string" "min" [("hint", "h"); ("min", "3")] "v".
-Proof. reflexivity. Qed.
+(** the witness on the two formatters: the legacy one gives two messages for one issue, the repaired one the same *)
+Example legacy_message_depends_on_order :
+  default_format_legacy lang_en "string" "min" [("min", "{{hint}}"); ("hint", "three")] "v" = "string must contain at least three character(s)"
+  /\ default_format_legacy lang_en "string" "min" [("hint", "three"); ("min", "{{hint}}")] "v" = "string must contain at least {{hint}} character(s)".
+Proof. split; reflexivity. Qed.
+Example repaired_message_does_not :
+  default_format lang_en "string" "min" [("min", "{{hint}}"); ("hint", "three")] "v" = "string must contain at least {{hint}} character(s)"
+  /\ default_format lang_en "string" "min" [("hint", "three"); ("min", "{{hint}}")] "v" = "string must contain at least {{hint}} character(s)".
+Proof. split; reflexivity. Qed.
